@@ -623,12 +623,21 @@ class Sequence(OrderIndicator):
 
             num_elements = len(xmlelements)
             item_result = OrderedDict()
+            end_of_repetition = False
             for elm_name, element in self.elements:
                 try:
                     item_subresult = element.parse_xmlelements(
                         xmlelements, schema, name, context=context
                     )
                 except UnexpectedElementError:
+                    # A following round which doesn't start with the expected
+                    # element means that the repetition has ended.
+                    if (
+                        len(result) >= self.min_occurs
+                        and len(xmlelements) == num_elements
+                    ):
+                        end_of_repetition = True
+                        break
                     if schema.settings.strict:
                         raise
                     item_subresult = None
@@ -644,7 +653,7 @@ class Sequence(OrderIndicator):
 
             # Stop when nothing was consumed, otherwise we would keep
             # looping until max_occurs is reached without making progress
-            if len(xmlelements) == num_elements:
+            if end_of_repetition or len(xmlelements) == num_elements:
                 break
 
             if item_result:
